@@ -37,6 +37,9 @@ def gen_case(rng, pi_method=None, size="small", **kw):
     if district and "many_districts" not in kw and rng.random() < 0.3:
         kw["many_districts"] = True
     e = E.gen_election(rng, size=size, district=district, **kw)
+    if not all_reported and rng.random() < 0.08:
+        # a caller that takes every unit that has appeared at all: a reporting threshold of 0 (int or float) - nothing is outstanding
+        e.threshold = rng.choice([0, 0.0])
     if all_reported:
         # excluded units may sit below the threshold; reporting units must not
         for i in e.cur.index:
